@@ -171,7 +171,7 @@ func drawBodyMethod(rt *rapid.T, w *WorldDesc, methods []*MethodDesc, label stri
 var garbageBodies = []string{"", "null", "[]", "123", `"str"`, "{", "}", "{}", `{"a":`, `{"a":1,"a":2}`, "true", "[[[[[[[[[[[[[[[[[[[[[[[[[[[[[[[[", `{"x":1e400}`,
 	"\xff\xfe", `{"\ud800":1}`, "{\"a\":\"\xc3\x28\"}", "\x00", "\x08", "\x0a\xff\xff\xff\xff\x0f", "\x12\x05ab", "\xff\xff\xff\xff\xff\xff\xff\xff\xff\xff\x01", " ", "\n{}\n", "{}{}", `{"":{}}`}
 
-var jsonSwapValues = []string{"null", "1e400", `"str"`, "[]", "{}", "true", "-1", "1.5", `"` + strings.Repeat("x", 300) + `"`, `[[[[[[[[{}]]]]]]]]`, "18446744073709551616", `"18446744073709551616"`, `"NaN"`, `"2024-13-45T99:99:99Z"`, `"@@@"`, "0", `""`}
+var jsonSwapValues = []string{`"` + strings.Repeat("日", 85) + `"`, `"` + strings.Repeat("é", 127) + `x"`, `"a` + strings.Repeat("日本", 60) + `"`, "null", "1e400", `"str"`, "[]", "{}", "true", "-1", "1.5", `"` + strings.Repeat("x", 300) + `"`, `[[[[[[[[{}]]]]]]]]`, "18446744073709551616", `"18446744073709551616"`, `"NaN"`, `"2024-13-45T99:99:99Z"`, `"@@@"`, "0", `""`}
 
 // mutateBody applies drawn mutations to a valid body.
 func mutateBody(rt *rapid.T, body []byte, family, label string) []byte {
@@ -214,6 +214,13 @@ func mutateBody(rt *rapid.T, body []byte, family, label string) []byte {
 			}
 		case 6: // random bytes
 			b = rapid.SliceOfN(rapid.Byte(), 0, 24).Draw(rt, l+".rand")
+			if family == "proto" && rapid.IntRange(0, 9).Draw(rt, l+".big") == 0 {
+				// a large, well-formed protobuf body: unknown-field records pad it so that a record
+				// boundary falls exactly on a power-of-two size, and the real fields come after it
+				// (a reader that silently stops at such a size decodes a prefix only)
+				size := rapid.SampledFrom([]int{1 << 16, 1 << 20, 4 << 20}).Draw(rt, l+".bigsize")
+				b = bigPadded(body, size)
+			}
 		}
 	}
 	return b
@@ -784,4 +791,15 @@ func annKind(d string) string {
 		return d[i+1 : j]
 	}
 	return ""
+}
+
+// bigPadded returns pad || body where pad consists of 16-byte unknown-field records
+// (field 1000, length-delimited, 13 payload bytes) filling exactly size bytes.
+func bigPadded(body []byte, size int) []byte {
+	rec := append([]byte{0xC2, 0x3E, 13}, []byte("paddingpaddin")...) // tag(1000,2)=0x3EC2 varint, len 13
+	out := make([]byte, 0, size+len(body))
+	for len(out)+len(rec) <= size {
+		out = append(out, rec...)
+	}
+	return append(out, body...)
 }
